@@ -340,12 +340,13 @@ fn main() {
     bf.push((15_000, g.gen_range(1..1_000_000)));
     bf.push((g.gen_range(1..100_000), g.gen_range(1..1_000_000)));
     if thorough {
-        for _ in 0..4 {
+        for _ in 0..2 {
             bf.push((g.gen_range(0..100_000), g.gen_range(0..1_000_000)));
         }
         bf.push((999_999, 999_999));
         bf.push((1, 1));
     }
+    let pick = Cell::new(0usize);
     let oracles = |g: &mut ChaCha20Rng, all: bool| -> Vec<Oracle> {
         let pool = vec![
             Oracle::Stub,
@@ -363,14 +364,16 @@ fn main() {
             v.extend(pool);
             v
         } else {
-            // the honest oracle always, plus two seeded adversarial ones
-            let a = g.gen_range(0..pool.len());
-            let b = g.gen_range(0..pool.len());
-            vec![Oracle::Assumed, pool[a].clone(), pool[b].clone()]
+            // one oracle per input: the honest one two times in five, else a seeded adversarial one
+            let i = pick.get();
+            pick.set(i + 1);
+            if i % 5 < 2 { vec![Oracle::Assumed] } else { vec![pool[g.gen_range(0..pool.len())].clone()] }
         }
     };
     let norm = denoms(6, 1_000_000_000_000);
-    for &(buffer, fee) in &bf {
+    for (bi, &(buffer, fee)) in bf.iter().enumerate() {
+        // quick: the ZIP 317 pair and the two seeded pairs get every boundary, the others a quarter
+        let full = thorough || bi == 0 || bi >= 4;
         let offs = [
             0u64,
             1,
@@ -392,6 +395,9 @@ fn main() {
         totals.sort();
         totals.dedup();
         for &t in &totals {
+            if !full && g.gen_range(0..4) != 0 {
+                continue;
+            }
             for nc in [1usize, 2] {
                 let cap = if g.gen_bool(0.5) { g.gen_range(1..=64) } else { [1, 2, 50, 64][g.gen_range(0..4)] };
                 for o in oracles(&mut g, thorough) {
@@ -409,7 +415,7 @@ fn main() {
                         continue;
                     }
                     for cap in [k, k + 1, 64] {
-                        if cap == 0 || cap > 64 {
+                        if cap == 0 || cap > 64 || (!thorough && (cap == k + 1 || !full)) {
                             continue;
                         }
                         let nc = g.gen_range(1..=4);
@@ -525,12 +531,13 @@ fn main() {
             vs.push((d as i64 + delta) as u64);
         }
         vs.push(d.saturating_mul(3).min(MAX_MONEY));
-        vs.push((d / 10) * 11);
+        vs.push(((d / 10) * 11).min(MAX_MONEY));
     }
     for _ in 0..(if thorough { 1000 } else { 100 }) {
         vs.push(g.gen_range(0..=MAX_MONEY));
     }
     for v in vs {
+        assert!(v <= MAX_MONEY, "driver bug: not an amount");
         w.emit(&canon_event(v));
     }
     let n = w.finish();
